@@ -106,8 +106,10 @@ class Renderer:
             return info["txt"]
         return pool[rnd.randrange(len(pool))]
 
-    def operand(self, cls, rnd, base0):
-        """-> (text, {name: (place, definition text, label block needed or None)})"""
+    def operand(self, cls, rnd, base0, force=None):
+        """-> (text, {name: (place, definition text, label block needed or None)})
+        force="pending": the operand is written as something that is not yet known when the expression is first evaluated (a symbol
+        defined further down, a difference of labels or of label aliases that follow), wherever its class allows it"""
         if cls == "dot":
             self.modes["dot"] += 1
             return ".", {}
@@ -129,6 +131,8 @@ class Renderer:
             else:
                 tag = "x" + "".join(ch for ch in info["txt"] if ch.isalnum())
                 modes = ["L", "L", "SB", "SA"]
+        if force == "pending" and any(m_ in ("SA", "AA", "EA") for m_ in modes):
+            modes = [m_ for m_ in modes if m_ in ("SA", "AA", "EA")]
         mode = modes[rnd.randrange(len(modes))]
         self.modes[mode] += 1
         if mode == "L":
@@ -149,14 +153,14 @@ class Renderer:
         name = f"da{tag}h{hi}l{lo}"
         return name, {name: ("after", f"{name} = z{hi} - z{lo}", "z")}
 
-    def expr(self, toks, rnd, base0):
+    def expr(self, toks, rnd, base0, force=None):
         """toks: exported token texts.  -> (text, needs)"""
         needs = {}
         stack = [[]]           # pieces of the open groups
         styles = []
         for t in toks:
             if t[0] == "#":
-                text, nd = self.operand(t[1:], rnd, base0)
+                text, nd = self.operand(t[1:], rnd, base0, force)
                 needs.update(nd)
                 stack[-1].append(("opd", text))
             elif t[0] == "p":
@@ -267,9 +271,9 @@ def render_item(rec, seed, base0):
     if rec[0] == "lit":
         _, text, st, v = rec
         return (".dword", text, {}, dword_bytes(v) if st == "ok" else None)
-    toks, st, v, serial = rec
+    toks, st, v, serial = rec[:4]
     rnd = random.Random(seed * 1000003 + serial)
-    text, needs = RENDERER.expr(toks, rnd, base0)
+    text, needs = RENDERER.expr(toks, rnd, base0, rec[4] if len(rec) > 4 else None)
     if st != "ok":
         return (".dword", text, needs, None)
     if -32768 <= v <= 65535 and rnd.random() < 0.25:
@@ -373,6 +377,11 @@ class Replayer:
                 self.batch.append(r)
             else:
                 self.single.append((r, dot_v if has_dot else None))
+                if st == "err" and not has_dot and ntok <= 7:
+                    # an error must be reported also when its operands are still unknown at the first evaluation (and whatever the
+                    # rest of the expression does with the erroneous value, e.g. multiply it by zero)
+                    self.single.append((r + ("pending",), None))
+                    self.n["error_cases_with_pending_operands"] += 1
         if st == "err" and self.n["sampled_err"] < 2 and ntok >= 3:
             self.n["sampled_err"] += 1
             self.sample(r, "error")
@@ -420,7 +429,9 @@ class Replayer:
         progs = []
         for r, dot_v in self.single:
             link_pos = "top" if rnd.random() < 0.4 else "end"
-            if dot_v is not None:
+            if len(r) > 4:
+                progs.append(([r], ("top", "end")[r[3] % 2], ("base", 0o1000), False, False))
+            elif dot_v is not None:
                 progs.append(([r], link_pos, ("dot", dot_v), rnd.random() < 0.5, dot_v == BLOCK_LEN))
             elif rnd.random() < 0.5:
                 progs.append(([r], link_pos, ("base", 0), True, True))
